@@ -53,7 +53,7 @@ var objects = []Obj{{7, "x"}, {0, ""}, {-42, "\x1bjson: \"q\""}, {5, "50% done, 
 // objects that are no structs: strings (with control characters, quotes, non-ASCII), numbers, booleans, a slice, a map
 // (Frame.O = 100 + index)
 var otherObjects = []any{"plain text", "ctl \x01 \x7f \a \v \x00 end", "q\"uo\\te <&> \u00e9\u2028", int64(-7), int64(1234567890123), true,
-	[]int{1, 2, 3}, map[string]string{"k": "v", "a": "\x02"}, []string{}, "\x1bjson"}
+	[]int{1, 2, 3}, map[string]string{"k": "v", "a": "\x02"}, []string{}, "\x1bjson", "<json> & </json>", map[string]string{"<json>": "<json>"}}
 
 func anyJSON(o any) string {
 	b, err := json.Marshal(o)
@@ -102,6 +102,9 @@ var texts = []string{
 	"key \xff\xfe",
 	"\x80",
 	"caf\xc3(",
+	// printable look-alikes of an embedding marker
+	"<json>",
+	"<json>{\"A\":7,\"B\":\"x\"}<json>",
 }
 
 // texts used with the separator-less wrap fmt.Errorf("%s%w", t, e): the text stands directly in front of
@@ -110,7 +113,7 @@ var texts = []string{
 var glueTexts = []string{"100%", "%", "pre ", "%s", "\x1bjson", ""}
 
 // number of texts at the front of the alphabet that are used as status / plain leaf messages too
-var markerFree = []int{0, 1, 2, 3, 4, 5, 6, 7, 15, 16, 17, 18, 19, 20, 21, 22, 23, 24, 25}
+var markerFree = []int{0, 1, 2, 3, 4, 5, 6, 7, 15, 16, 17, 18, 19, 20, 21, 22, 23, 24, 25, 26, 27}
 
 // ---- case description (what --from reads back) ----
 
@@ -540,6 +543,14 @@ func (r *runner) run(c Case) string {
 	decoyText := decoy.Error()
 	defer runtime.KeepAlive(decoy)
 	_ = decoyText
+	// ... and somebody (a logger, a metrics label) has classified a flattened copy of e's text before: a class-less
+	// error that merely reads like e
+	func() {
+		defer func() { recover() }()
+		flat := fmt.Errorf("%v", e)
+		_ = ge.GRPCStatusCode(flat)
+		_ = ge.GRPCWrap(errors.New(e.Error()))
+	}()
 	var w, w2, t, u error
 	var same, idem, msgkept, tsame bool
 	func() {
